@@ -671,6 +671,10 @@ class Quantity:
 
             other = self._unit_database.GetInfo(self._quantity_type, to_unit, fix_unknown=True)
 
+            # same unit, asked for in its legacy spelling: no conversion needed
+            if other.unit == from_unit:
+                return value
+
             return other.frombase(self._tobase(value))
         else:
             return self.Convert(value, to_unit)
